@@ -46,10 +46,10 @@ CLAIMED = {
     "C02": ("Coq theorems (Props/C02.v), for every size_of table: wf x -> dec_T (enc_T x ++ r) = (Ok x, r) for Transaction, Block, "
             "TransactionPrefix, BlockHeader and every component (all seven RingCT types with their dependent vector shapes), integers at every "
             "width, Vec<T> for any round-tripping element; strict parse of the serialisation succeeds and fails with any non-empty trailer; "
-            "partial parse consumes exactly |enc x|; the usize every encoder returns (Model/CodecLen.v mirrors the Rust sums) equals the bytes "
+            "partial parse consumes exactly |enc x|; the typed transaction extra and each of its sub-fields round-trip through the consensus codec (C02_extra, C02_extra_subfield); the usize every encoder returns (Model/CodecLen.v mirrors the Rust sums) equals the bytes "
             "written. wf states the implicit-length relations, integer ranges, fixed array lengths and the decoder's 32 MiB allocation cap. "
             "Correspondence: serialise/parse/strict/trailing on ~7*10^3 generated well-formed descriptions incl. the full RingCT-type x shape grid.",
-            "model Model/Codec.v + Model/CodecLen.v hand-written; String/UTF-8, Address, PublicKey and SubField codecs are not in this check (C12, C13, C16 cover them)",
+            "model Model/Codec.v + Model/CodecLen.v hand-written; String/UTF-8 is checked by correspondence only; Address and PublicKey codecs are the subject of C12, C13",
             "Coq proof + model/implementation correspondence", "4 C02"),
     "C17": ("Coq theorems (Props/C17.v): the Gallina hash equals, on bit strings, the FIPS 202 sponge SPONGE[Keccak-p[1600,24], pad10*1, 1088](M,256) "
             "with no domain-separation suffix (original Keccak-256, provably different padding from SHA3-256), with Keccak-p specified at bit level "
@@ -65,14 +65,14 @@ CLAIMED = {
             "oracle = independent recursive python implementation.",
             "model Model/TreeHash.v hand-written over an abstract hash; the miner-transaction hash is an input of the block ops (C05 covers it); tie = correspondence check",
             "Coq proof (refinement to recursive spec) + correspondence", "4 C06"),
-    "C13": ("Coq theorems (Props/C13.v, 19): secret key accepted iff 32 bytes encoding an integer < l; accepted keys give back the same bytes in "
+    "C13": ("Coq theorems (Props/C13.v, 20): secret key accepted iff 32 bytes encoding an integer < l; accepted keys give back the same bytes in "
             "binary/hex/consensus form; parsers accept only canonical input (unconditional). Public key accepted iff it is compress P of a valid "
             "point; operators are the group operations on the encoded points; pub(a+b)=pub a+pub b, a(bG)=(ab)G, (P+Q)-Q=P; panic iff a stored key "
             "does not decompress - proved for EVERY group satisfying the EdLaws record (_partial). On the executable Ed25519 model accepted keys have "
-            "y<p and no negative zero. Correspondence: 9.5k cases incl. all 38 non-canonical y, negative zeros, small-order points; model = library = "
+            "y<p and no negative zero, and 13 of the 22 EdLaws fields are proved for it unconditionally (C13_instance_laws_proved: closure of O, G, negation, torsion points; commutativity, P+O=P, 0P, 1P, (-a)P, lG=O, 8T=O, compress length, equality test), the other 9 (needing field inverses, i.e. primality of 2^255-19, and the Edwards addition law) are listed as the exact hypotheses of C13_instance_laws_remaining. Correspondence: 9.5k cases incl. all 38 non-canonical y, negative zeros, small-order points; model = library = "
             "independent python Ed25519.",
-            "PARTIAL: group laws of the curve are hypotheses (EdLaws, shown satisfiable); that curve25519-dalek / the executable model is such a group "
-            "is validated by KATs and computation on every case, not proved (no elliptic-curve or primality library available)",
+            "PARTIAL: group laws of the curve are hypotheses (EdLaws, shown satisfiable); for the executable model 13 of the 22 are proved, the remaining 9 (closure under +, associativity, P-P=O, distributivity, order of G, decompress/compress) "
+            "are validated by KATs and computation on every case, not proved (no elliptic-curve or primality library available)",
             "Coq proof over an abstract group (partial) + correspondence", "4 C13"),
     "C10": ("Coq theorems (Props/C10.v, 10): derivation(a,B) = 8(aB) = (8a)B for every valid point / accepted key; a small-order component is "
             "cleared (B'+T -> (8a mod l)B'); sender derivation = receiver derivation; one-time key = Hs(D||varint i)G + S, recognised by the receiver - "
